@@ -68,19 +68,25 @@ const (
 
 // Step scripts one protocol step.
 type Step struct {
-	Kind    string            `json:"kind"`
-	Write   string            `json:"write,omitempty"`
-	Segs    []int             `json:"segs,omitempty"`
-	DelayUs int               `json:"delay_us,omitempty"` // pause between segments
-	Name    string            `json:"name,omitempty"`     // handshake: name to report (wrong-name)
-	API     int32             `json:"api,omitempty"`      // handshake: version to report (wrong-api)
-	LibVer  string            `json:"libver,omitempty"`   // handshake: libraryVersion ("" = omit)
-	Files   map[string][]byte `json:"files,omitempty"`    // generate: files to return
-	EnvType int8              `json:"env_type,omitempty"` // wrong-type
-	Bytes   []byte            `json:"bytes,omitempty"`    // garbage-frame / garbage-raw
-	At      int               `json:"at,omitempty"`       // truncate
-	Prefix  uint32            `json:"prefix,omitempty"`   // oversize
-	Message string            `json:"message,omitempty"`  // exception
+	Kind    string `json:"kind"`
+	Write   string `json:"write,omitempty"`
+	Segs    []int  `json:"segs,omitempty"`
+	DelayUs int    `json:"delay_us,omitempty"` // pause between segments
+	Name    string `json:"name,omitempty"`     // handshake: name to report (wrong-name)
+	API     int32  `json:"api,omitempty"`      // handshake: version to report (wrong-api)
+	LibVer  string `json:"libver,omitempty"`   // handshake: libraryVersion ("" = omit)
+	// handshake: when FeatureList is set, Features is the advertised feature
+	// list verbatim (empty, unknown values, duplicates, ...) instead of
+	// [SERVICE_GENERATOR]; whether the plugin is a service generator then
+	// depends on SERVICE_GENERATOR being a member. Not a failure either way.
+	FeatureList bool              `json:"feature_list,omitempty"`
+	Features    []int32           `json:"features,omitempty"`
+	Files       map[string][]byte `json:"files,omitempty"`    // generate: files to return
+	EnvType     int8              `json:"env_type,omitempty"` // wrong-type
+	Bytes       []byte            `json:"bytes,omitempty"`    // garbage-frame / garbage-raw
+	At          int               `json:"at,omitempty"`       // truncate
+	Prefix      uint32            `json:"prefix,omitempty"`   // oversize
+	Message     string            `json:"message,omitempty"`  // exception
 }
 
 // Script is the whole behaviour of one fake plugin process.
@@ -222,6 +228,9 @@ func ReplyFrame(self, step string, st *Step, method string, seqid int32) []byte 
 		case KNoFeature:
 			feats = nil
 		}
+		if st.FeatureList && st.Kind != KNoFeature {
+			feats = st.Features
+		}
 		env.Body = HandshakeBody(name, api, feats, st.LibVer, st.Kind == KMissingField)
 	case StepGenerate:
 		env.Body = GenerateBody(st.Files)
@@ -270,7 +279,47 @@ func (p Plugin) Conforms() bool {
 // service-generator feature.
 func (p Plugin) Advertises() bool {
 	hs, _, _ := p.Script.Kinds()
-	return p.Conforms() && hs != KNoFeature
+	if !p.Conforms() || hs == KNoFeature {
+		return false
+	}
+	if st := p.Script.Handshake; st.FeatureList {
+		for _, f := range st.Features {
+			if f == FeatureServiceGenerator {
+				return true
+			}
+		}
+		return false
+	}
+	return true
+}
+
+// FeatureClass names the shape of the advertised feature list.
+func (p Plugin) FeatureClass() string {
+	hs, _, _ := p.Script.Kinds()
+	st := p.Script.Handshake
+	if hs == KNoFeature || (st.FeatureList && len(st.Features) == 0) {
+		return "features:empty"
+	}
+	if !st.FeatureList {
+		return "features:[SERVICE_GENERATOR]"
+	}
+	n, other := 0, 0
+	for _, f := range st.Features {
+		if f == FeatureServiceGenerator {
+			n++
+		} else {
+			other++
+		}
+	}
+	switch {
+	case n == 0:
+		return "features:only-unknown"
+	case other > 0:
+		return "features:unknown+SERVICE_GENERATOR"
+	case n > 1:
+		return "features:SERVICE_GENERATOR-repeated"
+	}
+	return "features:[SERVICE_GENERATOR]"
 }
 
 // IsFailure reports whether executing kind at step makes the plugin a failed
